@@ -539,6 +539,7 @@ Proof.
   - exact H.
   - eapply snap_inv_fields; [|exact H]. apply (jail_preserves snapfields frame_snapfields).
   - apply end_block_snap_inv in H. exact H.
+  - exact H.
 Qed.
 
 Lemma run_snap_inv : forall ops (s : state), snap_inv s -> snap_inv (run vlt ops s).
@@ -588,6 +589,7 @@ Proof.
   - destruct H as [Hw Hn]. split; cbn [set_vals vals]; [now rewrite map_addr_set_jailed | now apply nonneg_set_jailed].
   - destruct H as [Hw Hn]. split; [now rewrite jail_addrs | now apply jail_nonneg].
   - apply end_block_wf in H. exact H.
+  - exact H.
 Qed.
 
 Lemma run_wf : forall ops (s : state), wf_state s -> wf_state (run vlt ops s).
@@ -758,6 +760,7 @@ Proof.
   - apply vlt_irrefl.
   - rewrite (jail_preserves version (@minver version) (frame_minver version)). apply vlt_irrefl.
   - change (minver (set_clock ?x _ _)) with (minver x). rewrite end_block_minver. apply vlt_irrefl.
+  - apply vlt_irrefl.
 Qed.
 
 Theorem min_version_monotone_proof : forall ops (s : state), vlt (minver (run vlt ops s)) (minver s) = false.
